@@ -202,6 +202,15 @@ theorem sizeAlign_cases {H : Layout} (hH : HeaderOK H) (up : Bool) :
       simp only [Bool.false_eq_true, ↓reduceIte, natmax]; omega
   · exact Or.inl ⟨Or.inl rfl, rfl⟩
 
+theorem sizeAlign_pos {H : Layout} (hH : HeaderOK H) (up : Bool) : 0 < sizeAlign up H := by
+  have := hdr_ge hH
+  rcases sizeAlign_cases hH up with ⟨_, h⟩ | ⟨_, h⟩ <;> omega
+
+theorem sizeAlign_16_dvd {H : Layout} (hH : HeaderOK H) (up : Bool) : 16 ∣ sizeAlign up H := by
+  rcases sizeAlign_cases hH up with ⟨_, h⟩ | ⟨_, h⟩
+  · rw [h]; exact Nat.dvd_refl 16
+  · rw [h]; exact hdr_16_dvd hH
+
 /-- unfolding of `calcSize` into its three cases -/
 theorem calcSize_cases {H : Layout} (hH : HeaderOK H) (up : Bool) (hint : Nat) :
     (2 ^ 64 ≤ calcSizeRaw H hint ∧ calcSize up H hint = none) ∨
@@ -227,5 +236,18 @@ theorem calcSize_cases {H : Layout} (hH : HeaderOK H) (up : Bool) (hint : Nat) :
         · rw [hc.1] at h; cases h
         · omega
       simp only [ge_iff_le, hr, ↓reduceIte, this]
+
+/-! ## The two `offset_add_layout` calls shared by the generated functions -/
+
+open Gen.SizeConfig
+
+theorem oal_overhead : offset_add_layout 0 { size := 16, align := 8 } = .ok (some 16) := by
+  rw [offset_add_layout_eq ⟨3, rfl⟩ (by decide)]
+  rfl
+
+theorem oal_header {H : Layout} (hH : HeaderOK H) : offset_add_layout 16 H = .ok (some (minSize H)) := by
+  rw [offset_add_layout_eq (hdr_p2 hH) (hdr_lt64 hH)]
+  have : upAlign 16 H.align + H.size = minSize H := rfl
+  rw [this, if_pos (minSize_lt hH)]
 
 end Lemmas.Size
